@@ -37,7 +37,19 @@ RULE = ("(a) crash points: one template load through FileSystemBytecodeCache is 
         "ending in a load, env1/env2 sharing the directory and equal or differing in one of autoescape/"
         "trim_blocks/lstrip_blocks/enable_async/sandboxed/delimiters. (d) MemcachedBytecodeCache with "
         "a fake client scripted per call (get: ok/raise/None/every truncation/other key's bytes; set: "
-        "ok/raise/drop) x ignore_memcache_errors. Oracle everywhere: result == load+render of the "
+        "ok/raise/drop) x ignore_memcache_errors. (e) near-identical sources: for three small "
+        "templates (plain data with line breaks and a final newline; block tags / a comment on own "
+        "lines; string literals, CRLF and a combining character) EVERY single-character edit -- "
+        "substitution and insertion of each of 25 characters (space, tab, \\n, \\r, \\r\\n, the other "
+        "Unicode line boundaries \\x0b \\x0c \\x1c-\\x1e \\x85 U+2028 U+2029, Unicode spaces, "
+        "zero-width characters, a combining accent, letters incl. case / full-width / precomposed, digit, "
+        "punctuation) at every position, and deletion of every character (so also: final newline "
+        "added / removed / replaced) -- gives a pair (A, B) and the history load A, source:=B, load B, "
+        "source:=A, load A through one FileSystemBytecodeCache directory or one memcached client "
+        "(alternating), every load by a fresh environment, under the configurations default / "
+        "keep_trailing_newline / trim_blocks+lstrip_blocks / newline_sequence=CRLF+"
+        "keep_trailing_newline (quick: rotating per edit, all four for edits of the first or last "
+        "character; thorough: all four). Oracle everywhere: result == load+render of the "
         "CURRENT source compiled without any cache in the LOADING environment; no exception (except "
         "the client's own one when ignore_memcache_errors is off). distinct = distinct (part, "
         "template, loader, fault position/kind) cases")
@@ -51,6 +63,8 @@ ASSUMPTIONS = [
     "their marshal payload is this interpreter's or garbage",
     "only header bytes are corrupted; arbitrary corruption of the marshal payload is outside the statement",
     "one compile-relevant option differs per environment pair",
+    "near-identical sources are one edit apart and at most 45 characters long; the edit alphabet is "
+    "the 25 characters listed in RULE (no lone surrogates, no NUL)",
 ]
 NSHARDS = {"quick": 16, "thorough": 16}
 BUDGET_S = {"quick": 90, "thorough": 900}
@@ -61,14 +75,26 @@ FLOORS = {
                            "header_byte_flips": 22, "foreign_version_entries": 15,
                            "shared_histories": 600, "shared_loads": 1250, "shared_cache_hits": 230,
                            "memcached_loads": 1300, "memcached_client_get": 1900,
-                           "memcached_client_set": 1800}},
+                           "memcached_client_set": 1800,
+                           "edit_cases": 1500, "edit_loads": 4500,
+                           "edit_changes_the_rendering": 1200,
+                           "edit_class_sub:unicode-line-boundary": 200,
+                           "edit_class_ins:unicode-line-boundary": 200,
+                           "edit_class_sub:newline": 75, "edit_class_ins:newline": 75,
+                           "edit_class_del:newline": 3, "edit_at-end": 100}},
     "thorough": {"evaluations": 27000, "distinct": 12000,
                  "counters": {"crash_cases": 70, "real_deaths": 70, "crash_write_events": 47,
                               "crash_audit_events": 25, "reader_loads": 290, "trunc_offsets": 3800,
                               "header_byte_flips": 60, "foreign_version_entries": 40,
                               "shared_histories": 4700, "shared_loads": 12000,
                               "shared_cache_hits": 2800, "memcached_loads": 6900,
-                              "memcached_client_get": 10000, "memcached_client_set": 10000}},
+                              "memcached_client_get": 10000, "memcached_client_set": 10000,
+                              "edit_cases": 5500, "edit_loads": 16500,
+                              "edit_changes_the_rendering": 4400,
+                              "edit_class_sub:unicode-line-boundary": 800,
+                              "edit_class_ins:unicode-line-boundary": 800,
+                              "edit_class_sub:newline": 300, "edit_class_ins:newline": 300,
+                              "edit_class_del:newline": 8, "edit_at-end": 130}},
 }
 
 NAME = "t.html"
@@ -863,6 +889,160 @@ def part_memcached(ctx, quick):
                 mem_script(ctx, {"part": "mem", "tname": tname, "ignore": ignore, "script": script})
 
 
+# ----------------------------------- (e) near-identical sources (minimal edits)
+EDIT_BASES = {
+    "data": "Hello {{ x }}\nnext line\n",
+    "blocks": "{% if x %}\n yes\n{% endif %}\n{# c #}\nend",
+    "literal": "{{ 'a b' ~ x }}\r\n{% set y = 'q r' %}{{ y }}|e\u0301",
+}
+# replacement / inserted characters, by class
+EDIT_CHARS = [
+    ("space", " "), ("space", "\t"),
+    ("newline", "\n"), ("newline", "\r"), ("newline", "\r\n"),
+    # what str.splitlines / Unicode call a line boundary but the template lexer does not
+    ("unicode-line-boundary", "\x0b"), ("unicode-line-boundary", "\x0c"),
+    ("unicode-line-boundary", "\x1c"), ("unicode-line-boundary", "\x1d"),
+    ("unicode-line-boundary", "\x1e"), ("unicode-line-boundary", "\x85"),
+    ("unicode-line-boundary", "\u2028"), ("unicode-line-boundary", "\u2029"),
+    ("unicode-space", "\xa0"), ("unicode-space", "\u3000"), ("unicode-space", "\u2003"),
+    ("zero-width", "\ufeff"), ("zero-width", "\u200b"),
+    ("combining", "\u0301"), ("letter", "a"), ("letter", "A"), ("letter", "\xe9"),
+    ("letter", "\uff41"), ("digit", "7"), ("punctuation", "-"),
+]
+_CHAR_CLASS = {c: k for k, c in EDIT_CHARS}
+EDIT_CONFIGS = {
+    "default": {},
+    "keep_trailing_newline": {"keep_trailing_newline": True},
+    "trim_lstrip": {"trim_blocks": True, "lstrip_blocks": True},
+    "crlf_keep": {"newline_sequence": "\r\n", "keep_trailing_newline": True},
+}
+EDIT_BACKENDS = ("fs", "memcached")
+
+
+def char_class(ch):
+    if ch in _CHAR_CLASS:
+        return _CHAR_CLASS[ch]
+    if ch.isspace():
+        return "space"
+    if ch.isalpha():
+        return "letter"
+    if ch.isdigit():
+        return "digit"
+    return "punctuation"
+
+
+def apply_edit(base, kind, pos, ch):
+    if kind == "sub":
+        return base[:pos] + ch + base[pos + 1:]
+    if kind == "ins":
+        return base[:pos] + ch + base[pos:]
+    return base[:pos] + base[pos + 1:]        # del
+
+
+def edit_variants(base):
+    """Every single-character substitution / insertion (characters of
+    EDIT_CHARS) / deletion at every position of ``base``."""
+    for pos in range(len(base) + 1):
+        for _, ch in EDIT_CHARS:
+            if pos < len(base):
+                yield "sub", pos, ch
+            yield "ins", pos, ch
+        if pos < len(base):
+            yield "del", pos, ""
+
+
+def edit_where(base, kind, pos):
+    if kind == "ins" and pos == len(base) or kind != "ins" and pos == len(base) - 1:
+        return "at-end"
+    if pos == 0:
+        return "at-start"
+    return "inside"
+
+
+def edit_case(ctx, store, case):
+    """load(A) -> source becomes B -> load(B) -> source back to A -> load(A)
+    through ONE bytecode cache, every load by a fresh environment of the same
+    configuration, A and B one character apart."""
+    from jinja2 import DictLoader, FileSystemBytecodeCache, MemcachedBytecodeCache
+
+    a = EDIT_BASES[case["base"]]
+    kind, pos, ch = case["kind"], case["pos"], case["ch"]
+    b = apply_edit(a, kind, pos, ch)
+    if a == b:
+        return
+    opts = EDIT_CONFIGS[case["config"]]
+    exp = {}
+    for src in (a, b):
+        exp[src] = K.load_render(K.make_env(DictLoader({NAME: src}), None, opts), NAME)
+    # class of the character that comes in (sub / ins) or goes away (del)
+    cls = f"{kind}:{char_class(ch if kind != 'del' else a[pos])}"
+    ctx.count("edit_cases")
+    ctx.count("edit_class_" + cls)
+    ctx.count("edit_" + edit_where(a, kind, pos))
+    if not same(exp[a], exp[b]):
+        ctx.count("edit_changes_the_rendering")
+    cache_dir = None
+    if case["backend"] == "fs":
+        cache_dir, _ = store.fresh()
+        mk = lambda: FileSystemBytecodeCache(cache_dir)  # noqa: E731
+    else:
+        cl = FakeClient(ctx)
+        mk = lambda: MemcachedBytecodeCache(cl)  # noqa: E731
+    try:
+        mapping = {}
+        for step, src in enumerate((a, b, a)):
+            mapping[NAME] = src
+            r = K.load_render(K.make_env(DictLoader(mapping), mk(), opts), NAME)
+            ctx.ev()
+            ctx.count("edit_loads")
+            if same(r, exp[src]):
+                continue
+            prev = (b, a, b)[step]
+            if same(r, exp[prev]):
+                key = f"near-identical-source:stale-code:{cls}:{edit_where(a, kind, pos)}"
+            elif r[0] == "exc":
+                key = f"near-identical-source:raises:{r[2]}:{cls}"
+            else:
+                key = f"near-identical-source:wrong-output:{cls}"
+            if case["config"] != "default":
+                key += ":" + case["config"]
+            ctx.violation(key,
+                          f"source {a!r} edited to {b!r} ({kind} at {pos}) and back, one "
+                          f"{case['backend']} bytecode cache, configuration {opts}: load #{step + 1} "
+                          f"of {src!r} gave {r}; compiling that source gives {exp[src]}", case)
+            return
+    finally:
+        if cache_dir is not None:
+            store.drop(cache_dir)
+
+
+def part_edits(ctx, store, quick):
+    """quick: every edit inside the source once, configuration and backend
+    rotating from edit to edit, edits of the first / last character under every
+    configuration; thorough: every edit under every configuration."""
+    confs = list(EDIT_CONFIGS)
+    idx = 0
+    for bname, base in EDIT_BASES.items():
+        for kind, pos, ch in edit_variants(base):
+            for ci, conf in enumerate(confs):
+                idx += 1
+                if quick and edit_where(base, kind, pos) == "inside" and \
+                        ci != (idx // len(confs)) % len(confs):
+                    continue
+                if not ctx.mine(idx // len(confs)):
+                    continue
+                if ctx.out_of_time():
+                    ctx.inconc("time box hit inside the minimal-edit enumeration")
+                    return
+                case = {"part": "edit", "base": bname, "kind": kind, "pos": pos, "ch": ch,
+                        "config": conf, "backend": EDIT_BACKENDS[(idx // 7) % 2]}
+                ctx.dist(("edit", bname, kind, pos, ch, conf))
+                edit_case(ctx, store, case)
+    if ctx.shard == 0:
+        ctx.sample({"part": "edit", "base": "data", "kind": "sub", "pos": 13, "ch": "\x0c",
+                    "config": "default", "backend": "fs"})
+
+
 # ----------------------------------------------------------------- driver
 def warm():
     """Import and exercise everything once in the harness process so that
@@ -884,6 +1064,7 @@ def run(ctx):
                          ("damaged", lambda: part_damaged(ctx, store, quick)),
                          ("shared", lambda: part_shared(ctx, store, quick)),
                          ("memcached", lambda: part_memcached(ctx, quick)),
+                         ("edits", lambda: part_edits(ctx, store, quick)),
                          ("real_deaths", lambda: part_crash(ctx, store, quick, real=True))):
             t0 = ctx.elapsed()
             fn()
@@ -903,6 +1084,8 @@ def replay(ctx, case):
             shared_history(ctx, store, case)
         elif part == "mem":
             mem_script(ctx, case)
+        elif part == "edit":
+            edit_case(ctx, store, case)
         else:
             replay_damaged(ctx, store, case)
     finally:
